@@ -29,11 +29,14 @@ package chain
 //@     && (forall n string, k string :: !(k in db.puts[n] && k in db.dels[n]))
 //
 //@ func (*MemDB).get props C17
+//@   inline
 //@   nopanic
+//@   assigns nothing
 //@   requires memInv(db)
 //@   ensures [view] result == memView(db, bucket, string(key))
 //
 //@ func (*MemDB).put props C17
+//@   inline
 //@   nopanic
 //@   requires memInv(db)
 //@   ensures [inv] memInv(db)
@@ -43,6 +46,7 @@ package chain
 //@   ensures [noop] result != nil ==> forall n string, k string :: memView(db, n, k) == old(memView(db, n, k))
 //
 //@ func (*MemDB).delete props C17
+//@   inline
 //@   nopanic
 //@   requires memInv(db)
 //@   ensures [inv] memInv(db)
@@ -50,3 +54,89 @@ package chain
 //@   ensures [point] result == nil ==> forall k string :: memView(db, bucket, k) == ite(k == old(string(key)), nil, old(memView(db, bucket, k)))
 //@   ensures [frame] forall n string, k string :: n != bucket ==> memView(db, n, k) == old(memView(db, n, k))
 //@   ensures [noop] result != nil ==> forall n string, k string :: memView(db, n, k) == old(memView(db, n, k))
+//
+//@ func (*MemDB).Bucket props C17
+//@   nopanic
+//@   assigns nothing
+//@   requires memInv(db)
+//@   ensures [exists] (result == nil) <==> !memExists(db, string(name))
+//@   ensures [handle] result != nil ==> result.(memBucket).name == string(name) && result.(memBucket).db == db
+//
+//@ func (*MemDB).CreateBucket props C17
+//@   nopanic
+//@   requires memInv(db)
+//@   ensures [inv] memInv(db)
+//@   ensures [err] (result1 == nil) <==> !old(memExists(db, string(name)))
+//@   ensures [empty] result1 == nil ==> memExists(db, string(name)) && (forall k string :: memView(db, string(name), k) == nil)
+//@   ensures [frame] forall n string, k string :: n != old(string(name)) ==> memView(db, n, k) == old(memView(db, n, k)) && (memExists(db, n) <==> old(memExists(db, n)))
+//@   ensures [noop] result1 != nil ==> forall n string, k string :: memView(db, n, k) == old(memView(db, n, k)) && (memExists(db, n) <==> old(memExists(db, n)))
+//
+// Cancel discards exactly the unflushed writes: afterwards the view is the committed data.
+//@ func (*MemDB).Cancel props C17
+//@   nopanic
+//@   requires memInv(db)
+//@   loop "range db.puts"
+//@     invariant db == old(db) && db.puts == old(db.puts) && db.dels == old(db.dels) && db.buckets == old(db.buckets)
+//@     invariant forall n string :: n in db.puts ==> !visited(n) && atstart(n)
+//@     invariant forall n string :: db.buckets[n] == old(db.buckets[n]) && db.dels[n] == old(db.dels[n]) && ((n in db.dels) <==> old(n in db.dels))
+//@     invariant forall n string :: n in db.puts ==> db.puts[n] == old(db.puts[n])
+//@   loop "range db.dels"
+//@     invariant db == old(db) && db.puts == old(db.puts) && db.dels == old(db.dels) && db.buckets == old(db.buckets)
+//@     invariant forall n string :: n in db.dels ==> !visited(n) && atstart(n)
+//@     invariant forall n string :: !(n in db.puts) && db.buckets[n] == old(db.buckets[n])
+//@   ensures [inv] memInv(db)
+//@   ensures [discard] forall n string, k string :: memView(db, n, k) == old(db.buckets[n][k])
+//@   ensures [pending] forall n string :: !(n in db.puts) && !(n in db.dels)
+//
+//@ func (memBucket).Get props C17
+//@   inline
+//@   nopanic
+//@   assigns nothing
+//@   requires memInv(b.db)
+//@   ensures [view] result == memView(b.db, b.name, string(key))
+//@ func (memBucket).Put props C17
+//@   inline
+//@   nopanic
+//@   requires memInv(b.db)
+//@   assigns map:map[string]map[string][]byte, map:map[string][]byte, map:map[string]struct{}
+//@   ensures [inv] memInv(b.db)
+//@   ensures [err] (result == nil) <==> old(b.db.puts[b.name] != nil || b.db.buckets[b.name] != nil)
+//@   ensures [point] result == nil ==> forall k string :: memView(b.db, b.name, k) == ite(k == old(string(key)), value, old(memView(b.db, b.name, k)))
+//@   ensures [frame] forall n string, k string :: n != b.name ==> memView(b.db, n, k) == old(memView(b.db, n, k))
+//@ func (memBucket).Delete props C17
+//@   inline
+//@   nopanic
+//@   requires memInv(b.db)
+//@   assigns map:map[string]map[string][]byte, map:map[string][]byte, map:map[string]struct{}
+//@   ensures [inv] memInv(b.db)
+//@   ensures [err] (result == nil) <==> old(b.db.dels[b.name] != nil || b.db.buckets[b.name] != nil)
+//@   ensures [point] result == nil ==> forall k string :: memView(b.db, b.name, k) == ite(k == old(string(key)), nil, old(memView(b.db, b.name, k)))
+//@   ensures [frame] forall n string, k string :: n != b.name ==> memView(b.db, n, k) == old(memView(b.db, n, k))
+//
+// The wrapped backend bucket is abstract: bucketVal(b, k) is what it currently serves for k.
+//@ spec func bucketVal(b DBBucket, k string) []byte
+//@ iface DBBucket.Get
+//@   assigns nothing
+//@   ensures result == bucketVal(self, string(key))
+//
+// View of a write-caching bucket: pending puts, then pending deletes, then the backend.
+//@ pred cacheView(b cacheBucket, k string) = ite(k in b.mb.db.puts[b.mb.name], b.mb.db.puts[b.mb.name][k],
+//@     ite(k in b.mb.db.dels[b.mb.name], nil, bucketVal(b.db, k)))
+//@ pred cacheInv(b cacheBucket) = memInv(b.mb.db) && b.db != nil && (forall k string :: !(k in b.mb.db.buckets[b.mb.name]))
+//
+//@ func (cacheBucket).Get props C17
+//@   nopanic
+//@   requires cacheInv(b)
+//@   ensures [view] result == cacheView(b, string(key))
+//@ func (cacheBucket).Put props C17
+//@   nopanic
+//@   requires cacheInv(b) && (b.mb.db.puts[b.mb.name] != nil || b.mb.db.buckets[b.mb.name] != nil)
+//@   ensures [inv] cacheInv(b)
+//@   ensures [ok] result == nil
+//@   ensures [point] forall k string :: cacheView(b, k) == ite(k == old(string(key)), value, old(cacheView(b, k)))
+//@ func (cacheBucket).Delete props C17
+//@   nopanic
+//@   requires cacheInv(b) && (b.mb.db.dels[b.mb.name] != nil || b.mb.db.buckets[b.mb.name] != nil)
+//@   ensures [inv] cacheInv(b)
+//@   ensures [ok] result == nil
+//@   ensures [point] forall k string :: cacheView(b, k) == ite(k == old(string(key)), nil, old(cacheView(b, k)))
